@@ -143,9 +143,14 @@ Meaning(line) ==
 TrimInert(line) == Meaning(line) = Meaning(Trim(line))
 \* a comment stays a comment whatever follows its sign, as long as no marker starts at the sign
 CommentStable(line, more) == (Trim(line) # <<>> /\ Trim(line)[1] = BANG) => Meaning(line \o more).kind = "nothing"
-\* what follows the comment sign of a hosts entry never changes its names (C18, here for every line of the model)
+\* what follows the comment sign of a hosts entry never changes its names (C18, here for every line of the model) -
+\* for lines whose white space is blank and tab.  Deviation of the code, modelled as it is (ExoticBlankBeforeComment):
+\* white space that only strings.TrimSpace knows (vertical tab, form feed, NBSP, ...) in front of the comment sign is
+\* cut off when the line ends there, but stays part of the last name when a comment follows, because the hosts parser
+\* splits on blank and tab only ("1.2.3.4 a.com<VT>" names a.com, "1.2.3.4 a.com<VT># x" names "a.com<VT>").
+PlainSpaceOnly(s) == \A k \in 1..Len(s) : s[k] \notin {10, 11, 12, 13, 133, 160, 194}
 HostCommentInert(line) ==
     LET t == Trim(line) m == Meaning(line) IN
-    (m.kind = "host" /\ \E i \in 2..Len(t) : t[i] = HASH) =>
+    (PlainSpaceOnly(t) /\ m.kind = "host" /\ \E i \in 2..Len(t) : t[i] = HASH) =>
         LET P == { i \in 2..Len(t) : t[i] = HASH } IN Meaning(SubSeq(t, 1, MinOf(P) - 1)).names = m.names
 =============================================================================
